@@ -854,6 +854,7 @@ def run(ctx):
     cases, meta, trig, bcalls = [], {}, [], []
     obs_counts = {}
     still_fails = {}
+    nshrunk = [0]
 
     def register(cid, stream, ex, fixed):
         nonlocal trig, bcalls
@@ -887,7 +888,10 @@ def run(ctx):
             elif expected and still_fails.get(stream):
                 ctx.count("known_pattern_variant_violation:" + stream)
             else:
-                sp = shrink(specs[: v["step"] + 1], v["inv"], budget=120 if quick else 400)
+                nshrunk[0] += 1
+                sp = specs[: v["step"] + 1]
+                if nshrunk[0] <= 5:  # minimise the first few, report the rest as found
+                    sp = shrink(sp, v["inv"], budget=120 if quick else 400)
                 ctx.fail("invariant:" + v["inv"], cid, v["detail"], inp={"stream": stream}, site="VarsManager." + v["op"][0],
                          fingerprint="inv:" + v["inv"], failing_input={"history": sp, "invariant": v["inv"], "detail": v["detail"]})
 
